@@ -8,6 +8,7 @@ import (
 	"errors"
 	"fmt"
 	"sync"
+	"sync/atomic"
 	"testing"
 	"time"
 
@@ -33,6 +34,7 @@ type Case struct {
 	After   int          `json:"after"`   // calls made after the failure
 	Holds   []sched.Hold `json:"holds,omitempty"`
 	Late    bool         `json:"late,omitempty"` // one more call is started while the failure is in progress (interleaving table)
+	WBlock  bool         `json:"wblock,omitempty"` // (with Late) the writer goroutine is inside a Write of the late call that the peer does not drain when the failure happens
 	// entry storm (TestPropEntryStorm)
 	Callers int    `json:"callers,omitempty"` // goroutines entering Rpc when the connection fails
 	Rounds  int    `json:"rounds,omitempty"`  // fresh connections failed one after the other
@@ -45,9 +47,65 @@ type Case struct {
 
 const deadline = 25 * time.Second
 
-type hangErr string
+// A deadline can also expire because the whole machine stood still: after a
+// stall every timer of every shard fires at once, and what was awaited
+// completes moments later. So an expired deadline is followed by a grace period
+// that starts only then; a hang is still a hang a few seconds later.
+const grace = 5 * time.Second
 
-func (h hangErr) Error() string { return string(h) }
+// await receives from ch within the deadline (plus grace).
+func await[T any](ch <-chan T) (v T, ok bool) {
+	t := time.NewTimer(deadline)
+	defer t.Stop()
+	select {
+	case v = <-ch:
+		return v, true
+	case <-t.C:
+	}
+	g := time.NewTimer(grace)
+	defer g.Stop()
+	select {
+	case v = <-ch:
+		return v, true
+	case <-g.C:
+		return v, false
+	}
+}
+
+// nextReq waits for the next request of the client within the deadline (plus grace).
+func nextReq(p *peer.Peer) *peer.Req {
+	r, ok := p.Next(deadline)
+	if r == nil && ok {
+		r, _ = p.Next(grace)
+	}
+	return r
+}
+
+// hangErr: something did not happen within the deadline. Whether a goroutine
+// is stuck inside go9p is looked up where the hang is noticed, while it still
+// exists (the clean-up on the way out — Unmount, releasing a held Write — may
+// dissolve it).
+type hangErr struct{ msg, blocked string }
+
+func (h *hangErr) Error() string { return h.msg }
+
+func hang(format string, a ...interface{}) error {
+	return &hangErr{fmt.Sprintf(format, a...), hx.BlockedInGo9p()}
+}
+
+// settle turns a hang into a violation (a goroutine is stuck inside go9p) or
+// into an inconclusive run (nil).
+func settle(err error) error {
+	h, ok := err.(*hangErr)
+	if !ok {
+		return err
+	}
+	if h.blocked != "" {
+		return fmt.Errorf("%s; goroutines blocked inside go9p:\n%s", h.msg, h.blocked)
+	}
+	hx.Inconclusive(h.msg)
+	return nil
+}
 
 type result struct {
 	kind string
@@ -113,9 +171,9 @@ func run(c *Case) error {
 	defer clnt.Unmount()
 	// answer helper for the sequential part
 	serveOne := func() error {
-		r, _ := p.Next(deadline)
+		r := nextReq(p)
 		if r == nil {
-			return hangErr("peer: expected request did not arrive")
+			return hang("peer: expected request did not arrive")
 		}
 		if r.Err != nil {
 			return fmt.Errorf("client sent a frame that does not decode: %v", r.Err)
@@ -168,9 +226,9 @@ func run(c *Case) error {
 	// the peer gathers all of them
 	reqs := map[uint32]*ref9p.Msg{} // by fid
 	for len(reqs) < n {
-		r, _ := p.Next(deadline)
+		r := nextReq(p)
 		if r == nil {
-			return hangErr(fmt.Sprintf("peer: only %d of %d outstanding requests arrived", len(reqs), n))
+			return hang("peer: only %d of %d outstanding requests arrived", len(reqs), n)
 		}
 		if r.Err != nil {
 			return fmt.Errorf("client sent a frame that does not decode: %v", r.Err)
@@ -223,14 +281,38 @@ func run(c *Case) error {
 	// a late caller that enters Rpc while the failure is in progress
 	var late *result
 	lateDone := make(chan struct{})
+	var wrelease atomic.Bool
 	if c.Late {
 		lf := mkfid()
 		lf.Fid = 999999
+		wentered := make(chan struct{}, 1)
+		if c.WBlock {
+			// the late call's request is being written, and the peer does not
+			// take it: the Write stays in progress until the transport breaks
+			// (EOF, error: released below) or the client closes its end
+			p.Lib.SetWriteHook(func([]byte) {
+				select {
+				case wentered <- struct{}{}:
+				default:
+				}
+				for !wrelease.Load() && !p.Lib.Closed() {
+					time.Sleep(50 * time.Microsecond)
+				}
+			})
+			defer func() { wrelease.Store(true); p.Lib.SetWriteHook(nil) }()
+		}
 		go func() {
 			late = doCall(clnt, "stat", lf, 0)
 			close(lateDone)
 		}()
-		ctl.WaitSeen("Tstat/999999", "rpcnb.enqueued", 2*time.Second)
+		if c.WBlock {
+			select {
+			case <-wentered:
+			case <-time.After(2 * time.Second):
+			}
+		} else {
+			ctl.WaitSeen("Tstat/999999", "rpcnb.enqueued", 2*time.Second)
+		}
 	} else {
 		close(lateDone)
 	}
@@ -245,8 +327,18 @@ func run(c *Case) error {
 	switch c.Fail {
 	case "eof":
 		p.End.CloseWrite()
+		wrelease.Store(true) // the transport is gone: a Write in progress ends
 	case "err":
+		if c.Late {
+			// the late call's Write fails with the transport and the client then
+			// closes its end at once, dropping what it has not read yet: only
+			// what the client has actually read counts as received
+			for i := 0; i < 4000 && p.End.Unread() > 0; i++ {
+				time.Sleep(250 * time.Microsecond)
+			}
+		}
 		p.End.FailPeer(errors.New("injected transport error"))
+		wrelease.Store(true)
 	case "unmount":
 		// only what the client has actually read counts as received
 		for i := 0; i < 4000 && p.End.Unread() > 0; i++ {
@@ -289,21 +381,17 @@ func run(c *Case) error {
 	// ---- every outstanding call returns
 	waitAll := make(chan struct{})
 	go func() { wg.Wait(); close(waitAll) }()
-	select {
-	case <-waitAll:
-	case <-time.After(deadline):
+	if _, ok := await(waitAll); !ok {
 		pend := 0
 		for _, r := range results {
 			if r == nil {
 				pend++
 			}
 		}
-		return hangErr(fmt.Sprintf("%d of %d outstanding calls did not return within %v after the failure (%s at byte %d of %d)", pend, n, deadline, c.Fail, cut, len(S)))
+		return hang("%d of %d outstanding calls did not return within %v after the failure (%s at byte %d of %d)", pend, n, deadline, c.Fail, cut, len(S))
 	}
-	select {
-	case <-lateDone:
-	case <-time.After(deadline):
-		return hangErr(fmt.Sprintf("a call that entered Rpc while the connection was failing did not return within %v", deadline))
+	if _, ok := await(lateDone); !ok {
+		return hang("a call that entered Rpc while the connection was failing did not return within %v", deadline)
 	}
 	if late != nil && late.err == nil {
 		return fmt.Errorf("a call made while the connection was failing returned success although no reply was sent for it")
@@ -325,21 +413,20 @@ func run(c *Case) error {
 	if c.Fail == "duptag" && c.After > 0 {
 		// "later" means after the client met the duplicate: a call that takes
 		// the recycled tag before that is, for the client, what the frame answers
-		if !ctl.WaitSeen("clnt", "clnt.recv.closing", deadline) {
-			return hangErr("the client did not react to a second reply for an answered tag within the deadline")
+		if !ctl.WaitSeen("clnt", "clnt.recv.closing", deadline) && !ctl.WaitSeen("clnt", "clnt.recv.closing", grace) {
+			return hang("the client did not react to a second reply for an answered tag within the deadline")
 		}
 	}
 	for k := 0; k < c.After; k++ {
 		ch := make(chan *result, 1)
 		f := mkfid()
 		go func() { ch <- doCall(clnt, []string{"stat", "read", "write", "open"}[k%4], f, uint64(500+k)) }()
-		select {
-		case r := <-ch:
-			if r.err == nil {
-				return fmt.Errorf("call %d made after the failure (%s) returned success", k, c.Fail)
-			}
-		case <-time.After(deadline):
-			return hangErr(fmt.Sprintf("call %d made after the failure (%s) did not return within %v", k, c.Fail, deadline))
+		r, ok := await(ch)
+		if !ok {
+			return hang("call %d made after the failure (%s) did not return within %v", k, c.Fail, deadline)
+		}
+		if r.err == nil {
+			return fmt.Errorf("call %d made after the failure (%s) returned success", k, c.Fail)
 		}
 	}
 	ap, fo := ctl.Stats()
@@ -379,14 +466,7 @@ func execute(test string, c *Case) error {
 	default:
 		err = run(c)
 	}
-	if h, ok := err.(hangErr); ok {
-		if blocked := hx.BlockedInGo9p(); blocked != "" {
-			return fmt.Errorf("%s; goroutines blocked inside go9p:\n%s", string(h), blocked)
-		}
-		hx.Inconclusive(string(h))
-		return nil
-	}
-	return err
+	return settle(err)
 }
 
 var faults = []string{"size0", "size1", "size2", "size3", "size4", "size5", "size6", "oversize-hdr", "oversize-data", "big31", "big32", "badtype", "unknowntag", "duptag"}
@@ -521,6 +601,37 @@ func TestEnumInterleavings(t *testing.T) {
 	hx.Exhaustive("late caller at {rpcnb.enqueued, rpcnb.sent, clnt.send.dequeued, clnt.send.written} x receiver at {clnt.recv.closing, clnt.recv.fanout} x 2 directions x {EOF, error, Unmount} x {0,2} other outstanding calls")
 }
 
+// TestEnumBlockedWriter: the failure happens while the writer goroutine is
+// inside a Write (of one more call) that the peer does not drain; for a
+// protocol failure the peer also keeps the connection open.
+func TestEnumBlockedWriter(t *testing.T) {
+	idx := 0
+	for _, fk := range append([]string{"eof", "err", "unmount"}, faults...) {
+		for _, dotu := range []bool{false, true} {
+			for n := 0; n <= 2; n++ {
+				for _, before := range []int{0, 1} {
+					if before == 1 && n == 0 {
+						continue
+					}
+					idx++
+					if hx.NShards > 1 && idx%hx.NShards != hx.Shard {
+						continue
+					}
+					c := &Case{Dotu: dotu, Msize: 512, Prelude: idx % 2, Calls: []string{"stat", "read"}[:n], Order: []int{0, 1}[:n], Cut: 100 * before, Fail: fk, After: 1, Late: true, WBlock: true}
+					if fk == "eof" || fk == "err" || fk == "unmount" {
+						c.Cut = []int{0, 60}[before] // also in the middle of a reply
+					}
+					if err := execute("blockedwriter", c); err != nil {
+						hx.Violation("blockedwriter", c, err.Error())
+						t.Fatalf("%v", err)
+					}
+				}
+			}
+		}
+	}
+	hx.Exhaustive("writer inside an undrained Write at the failure x {EOF, error, Unmount, 14 fault frames} x 0..2 other outstanding calls x before/after a delivered reply x 2 dialects")
+}
+
 func TestPropSessions(t *testing.T) {
 	kinds := []string{"stat", "read", "write", "open"}
 	hx.Check(t, "sessions", hx.N(300, 3000), func(t *rapid.T) {
@@ -534,6 +645,9 @@ func TestPropSessions(t *testing.T) {
 		c.Chunk = rapid.SampledFrom([]int{0, 1, 3, 16}).Draw(t, "chunk")
 		c.Fail = rapid.SampledFrom(append([]string{"eof", "eof", "err", "err", "unmount", "unmount"}, faults...)).Draw(t, "fail")
 		c.After = rapid.SampledFrom([]int{1, 1, 2, 20}).Draw(t, "after")
+		if rapid.IntRange(0, 5).Draw(t, "blockedwriter") == 0 {
+			c.Late, c.WBlock = true, true
+		}
 		if err := execute("sessions", c); err != nil {
 			hx.Failf(t, "sessions", c, "%v", err)
 		}
@@ -567,15 +681,7 @@ func TestTagFailure(t *testing.T) {
 				hx.Label("tag-interface fail=" + fk)
 				b, _ := json.Marshal(c)
 				hx.NonTrivial(b)
-				err := runTagFailure(c, n, cutFrames)
-				if h, ok := err.(hangErr); ok {
-					if blocked := hx.BlockedInGo9p(); blocked != "" {
-						err = fmt.Errorf("%s; goroutines blocked inside go9p:\n%s", string(h), blocked)
-					} else {
-						hx.Inconclusive(string(h))
-						err = nil
-					}
-				}
+				err := settle(runTagFailure(c, n, cutFrames))
 				if err != nil {
 					hx.Violation("tagfail", c, err.Error())
 					t.Fatalf("%v", err)
@@ -595,6 +701,9 @@ func runTagFailure(c *Case, n, answered int) error {
 	defer clnt.Unmount()
 	reqchan := make(chan *go9p.Req, 32)
 	tag := clnt.TagAlloc(reqchan)
+	// (the tag's worker goroutine inside go9p ends with TagFree; left alone it
+	// would look like a goroutine stuck inside go9p at a later deadline)
+	defer func() { go clnt.TagFree(tag) }()
 	fid := clnt.FidAlloc()
 	for i := 0; i < n; i++ {
 		var e error
@@ -612,9 +721,9 @@ func runTagFailure(c *Case, n, answered int) error {
 	}
 	var reqs []*ref9p.Msg
 	for len(reqs) < n {
-		r, _ := p.Next(deadline)
+		r := nextReq(p)
 		if r == nil {
-			return hangErr("peer: pipelined requests did not arrive")
+			return hang("peer: pipelined requests did not arrive")
 		}
 		reqs = append(reqs, r.Msg)
 	}
@@ -634,16 +743,15 @@ func runTagFailure(c *Case, n, answered int) error {
 		clnt.Unmount()
 	}
 	for i := 0; i < n; i++ {
-		select {
-		case r := <-reqchan:
-			if i < answered && r.Err != nil {
-				return fmt.Errorf("tag completion %d: its reply was received before the failure but it completed with error %v", i, r.Err)
-			}
-			if i >= answered && r.Err == nil {
-				return fmt.Errorf("tag completion %d completed without error although no reply was sent", i)
-			}
-		case <-time.After(deadline):
-			return hangErr(fmt.Sprintf("tag completion %d of %d never arrived after the failure", i, n))
+		r, ok := await(reqchan)
+		if !ok {
+			return hang("tag completion %d of %d never arrived after the failure", i, n)
+		}
+		if i < answered && r.Err != nil {
+			return fmt.Errorf("tag completion %d: its reply was received before the failure but it completed with error %v", i, r.Err)
+		}
+		if i >= answered && r.Err == nil {
+			return fmt.Errorf("tag completion %d completed without error although no reply was sent", i)
 		}
 	}
 	return nil
@@ -664,15 +772,7 @@ func TestStaleReplyInFlight(t *testing.T) {
 			hx.Label("stale reply for a request in the send queue")
 			b, _ := json.Marshal(c)
 			hx.NonTrivial(b, rep)
-			err := runStaleInFlight(c)
-			if h, ok := err.(hangErr); ok {
-				if blocked := hx.BlockedInGo9p(); blocked != "" {
-					err = fmt.Errorf("%s; goroutines blocked inside go9p:\n%s", string(h), blocked)
-				} else {
-					hx.Inconclusive(string(h))
-					err = nil
-				}
-			}
+			err := settle(runStaleInFlight(c))
 			if err != nil {
 				hx.Violation("staleinflight", c, err.Error())
 				t.Fatalf("%v", err)
@@ -693,9 +793,9 @@ func runStaleInFlight(c *Case) error {
 	// one completed call; its request slot (and tag) is cached for the next call
 	ch := make(chan *result, 1)
 	go func() { ch <- doCall(clnt, "stat", fid, 0) }()
-	r, _ := p.Next(deadline)
+	r := nextReq(p)
 	if r == nil {
-		return hangErr("peer: request did not arrive")
+		return hang("peer: request did not arrive")
 	}
 	first := p.Encode(peer.Answer(r.Msg))
 	_ = p.Write(first, nil)
@@ -730,10 +830,8 @@ func runStaleInFlight(c *Case) error {
 		}
 		_ = p.Write(p.Encode(peer.Answer(r.Msg)), nil)
 	}
-	select {
-	case <-ch:
-	case <-time.After(deadline):
-		return hangErr("a call made after a stale reply did not return")
+	if _, ok := await(ch); !ok {
+		return hang("a call made after a stale reply did not return")
 	}
 	return nil
 }
@@ -823,10 +921,8 @@ func runStorm(c *Case) error {
 	close(stopPeer)
 	done := make(chan struct{})
 	go func() { wg.Wait(); close(done) }()
-	select {
-	case <-done:
-	case <-time.After(deadline):
-		return hangErr(fmt.Sprintf("callers that kept issuing calls while the connection failed (%s) did not all return within %v", c.Fail, deadline))
+	if _, ok := await(done); !ok {
+		return hang("callers that kept issuing calls while the connection failed (%s) did not all return within %v", c.Fail, deadline)
 	}
 	for i, n := range errsSeen {
 		if n == 99 {
@@ -849,6 +945,10 @@ func TestReplay(t *testing.T) {
 	if e == nil {
 		t.Skip("no replay file", err)
 	}
+	if e.Test == "entrystorm" || e.Test == "storm" {
+		replayEnv(t, e, 100) // schedule dependent: one pass of a few dozen rounds proves little
+		return
+	}
 	replayEnv(t, e, 10)
 }
 
@@ -856,9 +956,6 @@ func replayEnv(t *testing.T, e *hx.Envelope, times int) {
 	var c Case
 	if err := json.Unmarshal(e.Case, &c); err != nil {
 		t.Fatalf("bad case: %v", err)
-	}
-	if e.Test == "entrystorm" {
-		times *= 10 // schedule-dependent: one pass of a few dozen rounds proves little
 	}
 	for i := 0; i < times; i++ {
 		if err := execute(e.Test, &c); err != nil {
